@@ -175,6 +175,10 @@ def call(data, kw, a, b, M, defaults=False):
     args = dict(kw)
     if not (defaults and (a, b) == (1, 5) and M == 7):
         args.update(proportion=a / b, mute_window_samples=M)
+    # the function is called twice with the very same argument objects (a caller processes a recording chunk by chunk
+    # with one range vector): the second answer is the one judged, so a call that alters its arguments or keeps state
+    # between calls shows up as a wrong flag / gain
+    voltage.saturation(data, **args)
     sat, mute = voltage.saturation(data, **args)
     return np.asarray(sat), np.asarray(mute)
 
